@@ -108,6 +108,14 @@ class M:
         return out
 
 
+def slin(t):
+    """linear form with coefficients read as signed 64-bit (offset(-1) appears as * 0xffff_ffff_ffff_ffff)"""
+    d, c = lin(t)
+    sg = lambda v: ((v + (1 << 63)) % (1 << 64)) - (1 << 63)
+    d2 = {k: sg(v) for k, v in d.items() if sg(v) != 0}
+    return tuple(sorted(d2.items(), key=repr)), sg(c)
+
+
 def slot(i, plus=0):
     """BASE + (i + plus) * size_of::<T>() in distributed form"""
     d, c = lin(i)
@@ -308,7 +316,141 @@ def run(ctx, config='rel-all'):
             check('into_iter', 'IntoIter { ptr: BASE, end: BASE + len }', p0 == BASE and good, show(m.canon(endv)[0])[:100])
         else:
             check('into_iter', 'IntoIter { ptr: BASE, end: BASE + len }', False)
-    ctx.floor('O2', n[0], 45, 'formula clauses evaluated')
+    # ---- truncate (loop: cursor and guard walk down together)
+    m = need('truncate')
+    if m:
+        L = [v for (bid, h), v in m.r.loops.items() if bid == m.body['id']]
+        okl = len(L) == 1
+        check('truncate', 'one drop loop', okl, '', m.body.get('span'))
+        if okl:
+            rec = L[0]
+            rng = [v for v in rec['init'].values() if 'Range' in repr(v)]
+            okr = any(any(t[0] == 'agg' and t[1].endswith('Range') and field_of(t, 'start') == ('param', 2) and m.canon(field_of(t, 'end'))[0] == LEN for t in subterms(v) if isinstance(t, tuple) and t) for v in rng)
+            check('truncate', 'the loop runs over len_arg .. self.len', okr)
+            cur = [(l, v) for l, v in rec['init'].items() if m.eq(v, slot(LEN))]
+            check('truncate', 'the cursor starts at BASE + len', len(cur) == 1)
+            if cur:
+                l = cur[0][0]
+                symv = rec['sym'][l]
+                steps = [st['env'].get(l) for st in rec['step']]
+                check('truncate', 'the cursor steps down by one element per iteration', bool(steps) and all(sv is not None and slin(app('sub', sv, symv)) == slin(app('mul', SZ, C(-1))) for sv in steps))
+                dip = [e for e in m.own if e.kind == 'drop_in_place']
+                check('truncate', 'the element dropped is the one just below the old cursor', len(dip) == 1 and slin(app('sub', dip[0].args[0], symv)) == slin(app('mul', SZ, C(-1))))
+            g = [v for v in rec['init'].values() if v[0] == 'agg' and v[1].endswith('SetLenOnDrop')]
+            okg = len(g) == 1 and m.canon(field_of(g[0], 'local_len'))[0] == LEN and field_of(g[0], 'len') == ('addr', ('fld', ('deref', SELF), 'collections::vec::Vec.len'))
+            check('truncate', 'the length guard starts at self.len and writes back to self.len', okg)
+            dec = [e for e in m.own if e.kind == 'call' and (e.callee or '').endswith('::decrement_len')]
+            dip = [e for e in m.own if e.kind == 'drop_in_place']
+            check('truncate', 'the length is lowered by one BEFORE each element is dropped', len(dec) == 1 and dec[0].args[1] == C(1) and len(dip) == 1 and m.r.events.index(dec[0]) < m.r.events.index(dip[0]))
+    # ---- extend_with (resize)
+    m = need('extend_with')
+    if m:
+        nn = ('param', 2)
+        rs = m.events('call', '::reserve')
+        check('extend_with', 'reserve(n) first', len(rs) == 1 and rs[0].args[1] == nn and m.r.events.index(rs[0]) < min([m.r.events.index(e) for e in m.own if e.kind == 'call' and (e.callee or '').endswith('ptr::write')] or [1 << 30]), '', m.body.get('span'))
+        L = [v for (bid, h), v in m.r.loops.items() if bid == m.body['id']]
+        if len(L) == 1:
+            rec = L[0]
+            rng = [v for v in rec['init'].values() if 'Range' in repr(v)]
+            okr = any(any(t[0] == 'agg' and t[1].endswith('Range') and field_of(t, 'start') == C(1) and field_of(t, 'end') == nn for t in subterms(v) if isinstance(t, tuple) and t) for v in rng)
+            check('extend_with', 'n - 1 clones (loop over 1..n), then the original value', okr)
+            cur = [(l, v) for l, v in rec['init'].items() if m.eq(v, slot(LEN))]
+            check('extend_with', 'the cursor starts at BASE + len (after the reserve)', len(cur) == 1)
+            w = m.events('call', 'ptr::write')
+            inc = [e for e in m.own if e.kind == 'call' and (e.callee or '').endswith('::increment_len')]
+            if cur:
+                l = cur[0][0]
+                symv = rec['sym'][l]
+                steps = [st['env'].get(l) for st in rec['step']]
+                check('extend_with', 'the cursor steps up by one element per clone', bool(steps) and all(sv is not None and slin(app('sub', sv, symv)) == slin(SZ) for sv in steps))
+                check('extend_with', 'every write goes through the cursor', len(w) == 2 and all(x.args[0] == symv for x in w))
+            evs = m.r.events
+            okw = len(w) == 2 and len(inc) == 2 and all(a[1] == C(1) for a in [i.args for i in inc]) and evs.index(w[0]) < evs.index(inc[0]) < evs.index(w[1]) < evs.index(inc[1])
+            check('extend_with', 'the length is raised by one only AFTER each slot was written', okw)
+            check('extend_with', 'the last write (the moved original) happens only for n > 0', len(w) == 2 and any(f in (('lt', C(0), nn), ('ne', C(0), nn), ('ne', nn, C(0))) for f in w[1].state.facts))
+        else:
+            check('extend_with', 'one clone loop', False)
+    # ---- resize / clear / append / extend_from_slice_copy: thin compositions
+    m = need('resize')
+    if m:
+        ew = m.events('call', '::extend_with')
+        tr = m.events('call', '::truncate')
+        lenl = ('load', ('fld', ('deref', SELF), 'collections::vec::Vec.len'), 0)
+        okg = len(ew) == 1 and ew[0].args[1] in (('app', 'wsub', ('param', 2), lenl), app('sub', ('param', 2), lenl)) and (('lt', lenl, ('param', 2)) in ew[0].state.facts or ('le', lenl, ('param', 2)) in ew[0].state.facts)
+        check('resize', 'grows by extend_with(new_len - len, value) only when new_len >= len (the difference cannot wrap)', okg, '', m.body.get('span'))
+        check('resize', 'otherwise truncate(new_len)', len(tr) == 1 and tr[0].args[1] == ('param', 2) and (('le', ('param', 2), lenl) in tr[0].state.facts or ('lt', ('param', 2), lenl) in tr[0].state.facts))
+    m = need('clear')
+    if m:
+        tr = m.events('call', '::truncate')
+        check('clear', 'truncate(0)', len(tr) == 1 and tr[0].args[0] == SELF and tr[0].args[1] == C(0))
+    m = need('append')
+    if m:
+        ae = m.events('call', '::append_elements')
+        sl = m.events('call', '::set_len')
+        oth = ('param', 2)
+        oks = len(ae) == 1 and ae[0].args[0] == SELF and ae[0].args[1][0] == 'agg' and field_of(ae[0].args[1], 'len') == ('load', ('fld', ('deref', oth), 'collections::vec::Vec.len'), 0) \
+            and field_of(ae[0].args[1], 'ptr')[0] == 'load' and 'RawVec.ptr' in repr(field_of(ae[0].args[1], 'ptr')) and repr(oth) in repr(field_of(ae[0].args[1], 'ptr'))
+        check('append', 'append_elements(other[..]) copies exactly other.len elements from other', oks)
+        check('append', 'other.set_len(0) after the copy (the elements moved)', len(sl) == 1 and sl[0].args[0] == oth and sl[0].args[1] == C(0) and bool(ae) and m.r.events.index(ae[0]) < m.r.events.index(sl[0]))
+    m = need('extend_from_slice_copy')
+    if m:
+        rs = m.events('call', '::reserve')
+        un = m.events('call', '::extend_from_slice_copy_unchecked')
+        cnt = app('len', ('param', 2))
+        check('extend_from_slice_copy', 'reserve(other.len()) precedes the unchecked copy of the same slice', len(rs) == 1 and rs[0].args[1] == cnt and len(un) == 1 and un[0].args[1] == ('param', 2) and m.r.events.index(rs[0]) < m.r.events.index(un[0]))
+    # ---- views: deref / deref_mut / into_bump_slice(_mut) / into_boxed_slice expose exactly (BASE, len)
+    for name, trait in (('deref', 'Deref'), ('deref_mut', 'DerefMut'), ('into_bump_slice', None), ('into_bump_slice_mut', None), ('into_boxed_slice', None)):
+        m = need(name, trait)
+        if not m:
+            continue
+        sl = m.events('slice')
+        byval = name.startswith('into_')
+        if byval:
+            okv = len(sl) == 1 and sl[0].args[0] == ('app', 'proj', ('app', 'proj', SELF, 'collections::vec::Vec.buf'), 'collections::raw_vec::RawVec.ptr') and sl[0].args[1] == ('app', 'proj', SELF, 'collections::vec::Vec.len')
+            fg = m.events('call', 'mem::forget')
+            okv = okv and len(fg) == 1 and fg[0].args[0] == SELF
+        else:
+            okv = len(sl) == 1 and m.canon(sl[0].args[0])[0] == BASE and m.canon(sl[0].args[1])[0] == LEN
+        check(name, 'exposes exactly from_raw_parts(BASE, len)' + (' and forgets the vector (the arena keeps the elements)' if byval else ''), okv, '', m.body.get('span'))
+    # ---- IntoIter::next / next_back / size_hint
+    it = {}
+    for b in db.fn_bodies():
+        mm = b['meta']
+        if b['kind'] == 'assoc_fn' and (mm.get('impl_adt') or '').endswith('vec::IntoIter') and mm.get('name') in ('next', 'next_back', 'size_hint'):
+            it[mm['name']] = b
+    for name in ('next', 'next_back'):
+        b = it.get(name)
+        if b is None:
+            ctx.anchor_missing('O2', 'IntoIter::' + name)
+            continue
+        I2, r2 = arena.run_fn(ctx, b['id'], config)
+        ev = [e for e in r2.events if len(e.stack) == 1]
+        P_, E_ = ('load', ('fld', ('deref', SELF), 'collections::vec::IntoIter.ptr'), 0), ('load', ('fld', ('deref', SELF), 'collections::vec::IntoIter.end'), 0)
+        fldn = 'ptr' if name == 'next' else 'end'
+        cur = P_ if name == 'next' else E_
+        sts = [e for e in ev if e.kind == 'store' and e.lv == ('fld', ('deref', SELF), 'collections::vec::IntoIter.' + fldn)]
+        rd = [e for e in ev if e.kind == 'call' and (e.callee or '').endswith('ptr::read')]
+        sgn = 1 if name == 'next' else -1
+        hl = slin
+        want = {hl(app('add', cur, app('mul', SZ, C(sgn)))), hl(app('add', cur, C(sgn)))}
+        got = {hl(e.val) for e in sts}
+        check('IntoIter::' + name, 'the cursor moves by exactly one element (one byte for zero-sized elements)', len(sts) == 2 and got == want, str([show(e.val)[:50] for e in sts]), b.get('span'))
+        zst = [e for e in sts if slin(e.val) == slin(app('add', cur, C(sgn)))]
+        check('IntoIter::' + name, 'the one-byte step is taken exactly when size_of::<T>() == 0', len(zst) == 1 and any(f[0] == 'eq' and SZ in f[1:] and C(0) in f[1:] for f in zst[0].state.facts))
+        rdat = cur if name == 'next' else app('add', cur, app('mul', SZ, C(-1)))
+        check('IntoIter::' + name, 'the element read is the one the cursor %s' % ('pointed at' if name == 'next' else 'now points at'), len(rd) == 1 and slin(rd[0].args[0]) == slin(rdat))
+        alts = arena.alternatives(I2, r2.ret, set())
+        okn = any(t[0] == 'agg' and t[2] == 'None' and any(f[0] == 'eq' and set(f[1:]) == {P_, E_} for f in fs) for t, fs in alts)
+        check('IntoIter::' + name, 'None exactly when ptr == end', okn)
+    b = it.get('size_hint')
+    if b is not None:
+        I2, r2 = arena.run_fn(ctx, b['id'], config)
+        P_, E_ = ('load', ('fld', ('deref', SELF), 'collections::vec::IntoIter.ptr'), 0), ('load', ('fld', ('deref', SELF), 'collections::vec::IntoIter.end'), 0)
+        lo = field_of(r2.ret, '0') if r2.ret is not None and r2.ret[0] == 'agg' else None
+        alts = {x for _, x in lo[2]} if lo is not None and lo[0] == 'phi' else {lo}
+        bytes_ = ('app', 'wsub', E_, P_)
+        check('IntoIter::size_hint', 'exact = (end - ptr) / size_of::<T>() (bytes for zero-sized elements)', alts == {bytes_, ('app', 'div', bytes_, SZ)}, str([show(a)[:60] for a in alts if a]), b.get('span'))
+    ctx.floor('O2', n[0], 83, 'formula clauses evaluated')
     # ---- R3 reserve forwarding
     for name in ('reserve', 'reserve_exact', 'try_reserve', 'try_reserve_exact'):
         b = vec_method(db, name)
